@@ -19,10 +19,21 @@ import (
 // returns the answers received (one per op, in order) and hungAt = index of the op that was being
 // executed when the process stalled (-1 if all ops were answered).
 func RunVegetaGuarded(bin string, ops []string, stall time.Duration) (lines []string, hungAt int, err error) {
+	return RunVegetaGuardedEnv(bin, ops, stall, false)
+}
+
+// RunVegetaGuardedEnv: with ignoreSIGINT the vegeta process STARTS with SIGINT ignored, as a background job of
+// a non-interactive shell, a `nohup`/`trap '' INT` wrapper or many supervisors start it (an ignored
+// disposition is inherited across exec).
+func RunVegetaGuardedEnv(bin string, ops []string, stall time.Duration, ignoreSIGINT bool) (lines []string, hungAt int, err error) {
 	if len(ops) == 0 {
 		return nil, -1, nil
 	}
 	cmd := exec.Command(bin)
+	if ignoreSIGINT {
+		// through a shell, so that the disposition of this (multi-threaded) process need not be touched
+		cmd = exec.Command("/bin/sh", "-c", `trap '' INT; exec "$0"`, bin)
+	}
 	cmd.Env = append(os.Environ(), "VEGETA_VERIF_DRIVER=1")
 	stdin, err := cmd.StdinPipe()
 	if err != nil {
